@@ -1,5 +1,6 @@
 """Property -> rules registry.  Each rule is a function(ctx) recording instances on ctx."""
 from rules import io as r_io
+from rules import hdr_tolerant as r_hdrt
 
 PROPS = {}
 
@@ -37,3 +38,25 @@ prop("C20",
                 "(any statement may raise) leaves an opened handle unclosed, closes a caller-supplied handle or "
                 "stores an owned handle; the behavioural whole (real I/O faults at the k-th operation) is implied "
                 "only under the 'every statement may raise' abstraction.")
+
+prop("C19",
+     [r_hdrt.rule_catchall, r_hdrt.rule_total, r_hdrt.rule_steer_lookup],
+     "Error-discipline analysis of the header loop (reader.parse_header_items_section): the call that parses a raw "
+     "line is inside a try with a catch-all handler; by control dependence the handler raises only when "
+     "ignore_header_errors is false, then raises LASHeaderError whose message derives (provenance) from the line, "
+     "and never breaks/continues/returns; by CFG reachability the values parsed from an earlier line can never be "
+     "used after a failed parse (HDR.CATCHALL). Totality: in the per-line code outside that try and in the closure of "
+     "lasio functions it reaches (resolved call graph incl. __setattr__/property hooks), no partial operation on "
+     "line-derived data (unguarded constant index, key/index from the line, number constructors, .index/.groupdict, "
+     "asserts, division, regex built from the line) sits outside a catch-all try, and every constant key read from "
+     "the parsed-line dict is a key of the dict literal read_header_line returns (HDR.TOTAL). The steering lookups "
+     "after each section are membership-guarded (HDR.STEER-LOOKUP). Not decided: that junk lines which do parse "
+     "leave genuine items unchanged (value-level).",
+     COMMON_ASSUMPTIONS + ["the catalogue of partial operation kinds in rules/hdr_tolerant.py (operations outside it, "
+                           "e.g. str methods, are total on str)"],
+     "DESIGN.md section 4, C19",
+     technique="error-discipline check: catch-all dominance + control dependence on the flag + taint/partial-operation "
+               "scan over the resolved call closure",
+     level_text="Static guarantee of the structural clauses 'every raising operation on header-line text is under the "
+                "catch-all handler' and 'the handler honours the flag'; the value-level non-interference of junk "
+                "lines that parse is not decided.")
